@@ -83,11 +83,52 @@ theorem foldl_pushes {vals v : Nat → Bool} (op : Op) (g : Nat → Option (List
       | and => simpa [joinVal, Bool.and_assoc] using this
       | or => simpa [joinVal, Bool.or_assoc] using this
 
+theorem indexIn_spec {faces : List Nat} {s : Nat} (hs : s ∈ faces) :
+    indexIn faces s < faces.length ∧ faces.getD (indexIn faces s) 0 = s := by
+  unfold indexIn
+  have hex : ∃ x ∈ faces, (x == s) = true := ⟨s, hs, by simp⟩
+  have hlt := List.findIdx_lt_length_of_exists hex
+  refine ⟨hlt, ?_⟩
+  have := List.findIdx_getElem (w := hlt)
+  simp only [List.getD_eq_getElem?_getD, List.getElem?_eq_getElem hlt, Option.getD_some]
+  simpa using this
+
+/-- senses seen by the raw logic: surface ids directly, or through the optional surface
+    mapping (`old_ids`, sorted) -/
+def mapVals (σ : Nat → Bool) : Option (List Nat) → Nat → Bool
+  | none => σ
+  | some m => fun j => σ (m.getD j 0)
+
+/-- the mapping (if any) is strictly sorted and contains every surface of the tree -/
+def MappingOk (t : Tree) : Option (List Nat) → Prop
+  | none => True
+  | some m => StrictSorted m ∧ ∀ i k, i < t.size → t.get i = .surface k → k ∈ m
+
+theorem surface_token {t : Tree} {σ : Nat → Bool} (mapping : Option (List Nat))
+    (hmap : MappingOk t mapping)
+    (hsurf : ∀ i k, i < t.size → t.get i = .surface k → k < lbegin) {i k : Nat} (hi : i < t.size)
+    (hg : t.get i = .surface k) :
+    surfTok mapping k < lbegin ∧ mapVals σ mapping (surfTok mapping k) = σ k := by
+  cases mapping with
+  | none => exact ⟨hsurf i k hi hg, rfl⟩
+  | some m =>
+    have hk := hmap.2 i k hi hg
+    have hspec := indexIn_spec hk
+    have hle := strictSorted_index_le hmap.1 _ hspec.1
+    have hget : m[indexIn m k] = k := by
+      have := hspec.2
+      simpa [List.getD_eq_getElem?_getD, List.getElem?_eq_getElem hspec.1] using this
+    rw [hget] at hle
+    refine ⟨Nat.lt_of_le_of_lt hle (hsurf i k hi hg), ?_⟩
+    show σ (m.getD (indexIn m k) 0) = σ k
+    rw [hspec.2]
+
 /-- the raw logic (in surface ids) built for node `n` pushes the value of `n` -/
 theorem buildPostfix_pushes {t : Tree} {σ v : Nat → Bool} (s : Struct t) (hm : Models t σ v)
-    (hsurf : ∀ i k, i < t.size → t.get i = .surface k → k < lbegin) :
-    ∀ (f n : Nat) (l : List Nat), n < t.size → buildPostfix t none f n = some l →
-    Pushes σ l (v n) := by
+    (hsurf : ∀ i k, i < t.size → t.get i = .surface k → k < lbegin)
+    (mapping : Option (List Nat)) (hmap : MappingOk t mapping) :
+    ∀ (f n : Nat) (l : List Nat), n < t.size → buildPostfix t mapping f n = some l →
+    Pushes (mapVals σ mapping) l (v n) := by
   intro f
   induction f with
   | zero => intro n l _ h; simp [buildPostfix] at h
@@ -100,12 +141,15 @@ theorem buildPostfix_pushes {t : Tree} {σ v : Nat → Bool} (s : Struct t) (hm 
     | tru =>
       rw [hg] at h hv; simp at h; subst h
       intro rest st
-      rw [hv]; exact evalRefLoop_true σ rest st
+      rw [hv]; exact evalRefLoop_true _ rest st
     | fls => rw [hg] at h; simp at h
     | surface k =>
       rw [hg] at h hv; simp at h; subst h
       intro rest st
-      rw [hv]; exact evalRefLoop_operand σ (hsurf n k hn hg) rest st
+      have htk := surface_token (σ := σ) mapping hmap hsurf hn hg
+      rw [hv]
+      show evalRefLoop _ (surfTok mapping k :: rest) st = _
+      rw [evalRefLoop_operand _ htk.1 rest st, htk.2]; rfl
     | aliased a =>
       rw [hg] at h hv hcl
       have := ih a l (hcl a (by simp [Node.children])) h
@@ -117,21 +161,23 @@ theorem buildPostfix_pushes {t : Tree} {σ v : Nat → Bool} (s : Struct t) (hm 
       have hp := ih a la (hcl a (by simp [Node.children])) hla
       intro rest st
       rw [List.append_assoc, hp, hv]
-      exact evalRefLoop_not σ rest (v a) st
+      exact evalRefLoop_not _ rest (v a) st
     | joined op ns =>
       rw [hg] at h hv hcl
       cases ns with
       | nil => simp at h
       | cons x xs =>
         simp only at h
-        cases hx : buildPostfix t none f x with
+        cases hx : buildPostfix t mapping f x with
         | none => rw [hx, foldl_postfixStep_none] at h; cases h
         | some lx =>
           rw [hx] at h
           have hpx := ih x lx (hcl x (by simp [Node.children])) hx
-          have hih : ∀ c ∈ xs, ∀ lc, buildPostfix t none f c = some lc → Pushes σ lc (v c) :=
+          have hih : ∀ c ∈ xs, ∀ lc, buildPostfix t mapping f c = some lc →
+              Pushes (mapVals σ mapping) lc (v c) :=
             fun c hc lc hlc => ih c lc (hcl c (by simp [Node.children, hc])) hlc
-          have := foldl_pushes (vals := σ) (v := v) op (fun c => buildPostfix t none f c)
+          have := foldl_pushes (vals := mapVals σ mapping) (v := v) op
+            (fun c => buildPostfix t mapping f c)
             xs hih lx (v x) l hpx h
           rw [hv]
           cases op <;> simpa [joinVal, evalNode] using this
@@ -178,35 +224,27 @@ theorem evalRefLoop_map (g : Nat → Nat) (vals vals' : Nat → Bool) :
               | cons a st1 => exact ihr _
             · rfl
 
-theorem indexIn_spec {faces : List Nat} {s : Nat} (hs : s ∈ faces) :
-    indexIn faces s < faces.length ∧ faces.getD (indexIn faces s) 0 = s := by
-  unfold indexIn
-  have hex : ∃ x ∈ faces, (x == s) = true := ⟨s, hs, by simp⟩
-  have hlt := List.findIdx_lt_length_of_exists hex
-  refine ⟨hlt, ?_⟩
-  have := List.findIdx_getElem (w := hlt)
-  simp only [List.getD_eq_getElem?_getD, List.getElem?_eq_getElem hlt, Option.getD_some]
-  simpa using this
-
 /-- ★ the logic returned by `PostfixLogicBuilder` (face indices), evaluated with senses read
     through the face vector, yields the value of the node -/
 theorem postfixOf_evalRef {t : Tree} {σ v : Nat → Bool} (s : Struct t) (hm : Models t σ v)
-    (hsurf : ∀ i k, i < t.size → t.get i = .surface k → k < lbegin) {n : Nat} (hn : n < t.size)
-    {faces lgc : List Nat} (h : postfixOf t none n = some (faces, lgc)) :
-    evalRef lgc (fun f => σ (faces.getD f 0)) = some (v n) := by
+    (hsurf : ∀ i k, i < t.size → t.get i = .surface k → k < lbegin)
+    (mapping : Option (List Nat)) (hmap : MappingOk t mapping) {n : Nat} (hn : n < t.size)
+    {faces lgc : List Nat} (h : postfixOf t mapping n = some (faces, lgc)) :
+    evalRef lgc (fun f => mapVals σ mapping (faces.getD f 0)) = some (v n) := by
   unfold postfixOf at h
-  cases hb : buildPostfix t none (t.size + 1) n with
+  cases hb : buildPostfix t mapping (t.size + 1) n with
   | none => rw [hb] at h; cases h
   | some raw =>
     rw [hb] at h
     simp only [Option.some.injEq, Prod.mk.injEq] at h
     rcases h with ⟨hf, hl⟩
     rw [hf] at hl
-    have hp := buildPostfix_pushes s hm hsurf (t.size + 1) n raw hn hb
-    have hraw : evalRefLoop σ raw [] = some [v n] := by
+    have hp := buildPostfix_pushes s hm hsurf mapping hmap (t.size + 1) n raw hn hb
+    have hraw : evalRefLoop (mapVals σ mapping) raw [] = some [v n] := by
       have := hp [] []
       simpa [evalRefLoop] using this
-    have hmap : evalRefLoop (fun f => σ (faces.getD f 0)) lgc [] = evalRefLoop σ raw [] := by
+    have hmap' : evalRefLoop (fun f => mapVals σ mapping (faces.getD f 0)) lgc []
+        = evalRefLoop (mapVals σ mapping) raw [] := by
       rw [← hl]
       apply evalRefLoop_map
       intro tok htok
@@ -228,6 +266,6 @@ theorem postfixOf_evalRef {t : Tree} {σ v : Nat → Bool} (s : Struct t) (hm : 
         have : indexIn faces tok < lbegin := Nat.lt_of_le_of_lt hle htl
         simpa [isOperatorToken] using this
     unfold evalRef
-    rw [hmap, hraw]
+    rw [hmap', hraw]
 
 end CelerVerif.Csg
